@@ -25,11 +25,15 @@ TAtoms == { Cmp("eq", <<"index", "x", "pair", 1>>, L(1)), Cmp("eq", <<"index", "
 TruthAtoms == { <<"truth", <<"attr", "x", "a">> >>, <<"truth", <<"attr", "y", "b">> >> }
 OtherAtoms == { Cmp("eq", <<"attr", "x", "a">>, L(0)), Cmp("eq", <<"attr", "y", "b">>, L(1)), Cmp("eq", <<"attr", "x", "a">>, <<"attr", "y", "b">>),
                 Cmp("ge", <<"attr", "x", "a">>, <<"attr", "x", "b">>) }
-Lits == TAtoms \cup TruthAtoms \cup { <<"not", p>> : p \in TAtoms \cup TruthAtoms }
+\* == / != between two COLLECTION values (the tuple-valued attribute pair = (a, b)): ordinary reading = equality of the sequences
+CollAtoms == { Cmp("eq", <<"attr", "x", "pair">>, <<"tlit", <<0, 1>> >>), Cmp("ne", <<"attr", "x", "pair">>, <<"tlit", <<1, 0>> >>),
+               Cmp("eq", <<"attr", "x", "pair">>, <<"attr", "y", "pair">>) }
+Lits == TAtoms \cup TruthAtoms \cup CollAtoms \cup { <<"not", p>> : p \in TAtoms \cup TruthAtoms \cup CollAtoms }
 Conds == Lits \cup { <<"and", p, q>> : p \in Lits, q \in Lits \cup OtherAtoms } \cup { <<"and", q, p>> : p \in Lits, q \in OtherAtoms }
               \cup { <<"or", p, q>> : p \in Lits, q \in Lits \cup OtherAtoms }
 TermVal(t, g) == CASE t[1] = "lit" -> t[2] [] t[1] = "var" -> g[t[2]]
-                   [] t[1] = "attr" -> AttrOf[g[t[2]]][t[3]]
+                   [] t[1] = "tlit" -> t[2]
+                   [] t[1] = "attr" -> (IF t[3] = "pair" THEN <<AttrOf[g[t[2]]].a, AttrOf[g[t[2]]].b>> ELSE AttrOf[g[t[2]]][t[3]])
                    [] t[1] = "index" -> (IF t[4] = 0 THEN AttrOf[g[t[2]]].a ELSE AttrOf[g[t[2]]].b)
                    [] t[1] = "call" -> 2 * AttrOf[g[t[2]]].a
                    [] OTHER -> AttrOf[g[t[2]]].a + t[4]
@@ -41,7 +45,7 @@ Sat(e, g) == CASE e[1] = "cmp" -> Apply(e[2], TermVal(e[3], g), TermVal(e[4], g)
                [] e[1] = "or" -> Sat(e[2], g) \/ Sat(e[3], g)
                [] OTHER -> ~Sat(e[2], g)
 RECURSIVE VarsOf(_)
-VarsOf(e) == CASE e[1] = "lit" -> {} [] e[1] \in {"var", "attr", "index", "call", "call1"} -> {e[2]}
+VarsOf(e) == CASE e[1] \in {"lit", "tlit"} -> {} [] e[1] \in {"var", "attr", "index", "call", "call1"} -> {e[2]}
                [] e[1] = "cmp" -> VarsOf(e[3]) \cup VarsOf(e[4])
                [] e[1] \in {"not", "truth"} -> VarsOf(e[2]) [] OTHER -> VarsOf(e[2]) \cup VarsOf(e[3])
 Doms == { <<"o3">>, <<"o1", "o2", "o3", "o4">>, <<"o4", "o2", "o1">> }
